@@ -254,6 +254,17 @@ def t_login_path(ctx):
                     'takeover': False, 'plan': 'whole', 's2c_compress': [],
                     'steps': [('encrypt', [1024, 2048][k % 2],
                                b'\x01\x02\x03\x04', sid, enc_)]})
+    # the session service answers the join with an error (transient 5xx,
+    # 403, no status): every join the client sends names the same hash
+    for v in (47, 340, 757):
+        for sid in ids[:4] + ids[8:11]:
+            for fails in ([503], [500], [403], [None], [502, 503]):
+                login_case(ctx, {
+                    'version': v, 'terminal': ('success',), 'token': True,
+                    'takeover': False, 'plan': 'whole', 's2c_compress': [],
+                    'join_fails': fails,
+                    'steps': [('encrypt', 1024, b'\x01\x02\x03\x04', sid,
+                               'spki')]})
     ctx.sample({'version': 757, 'server_id': ids[3], 'key': 'pkcs1'},
                'login')
     ctx.exhaustive_done('login path: 8 server ids x 3 protocols (x key '
